@@ -449,3 +449,26 @@ func vhCliWriteError() {
 }
 
 var _ = vSignCmd
+
+// vhCliBroken: C18 through the command line. A directory whose hierarchy is
+// broken (a subordinate naming an issuer nobody defines, next to a valid
+// root) and every setting of the five generate flags - all of them off
+// included: `gopki sign` fails (non-zero exit status) and writes nothing.
+func vhCliBroken() {
+	d := vNewDir()
+	defer d.cleanup()
+	d.put("r.yaml", vYaml("Root"))
+	d.put("s.yaml", vYamlSub("Sub", "nobody"))
+	flags := make([]int, 5)
+	useDefaults := vChoose("defaults", 2) == 1
+	for k := range flags {
+		flags[k] = -1
+		if !useDefaults {
+			flags[k] = vChoose(vFlagNames[k], 2)
+		}
+	}
+	code := d.run(flags, "y\n")
+	vReach("ran")
+	vAssert(code != 0, "a run over a hierarchy with an undefined issuer did not fail")
+	vAssert(d.stamp("r.pem") == "" && d.stamp("s.pem") == "", "a run over a broken hierarchy wrote a file")
+}
